@@ -616,7 +616,7 @@ Definition impl_preds (l : lit) : list pobs :=
       if signed_suffix a then [PNoParse]                          (* 7i8: complex `7i` then text *)
       else
       match b with
-      | BSci _ None _ _ _ _ => [PErr]                             (* 1e3: typed integer 1 with kind `e3` *)
+      | BSci _ None _ _ _ _ => [PErr; PNoParse]                   (* 1e3: typed integer 1 with kind `e3`; or prose *)
       | BRat n d =>
           match dval 10 n, dval 10 d with                         (* parse::<i64>().unwrap() of both magnitudes *)
           | Some nn, Some dd => if andb (i64_fits nn) (i64_fits dd) then [] else [PErr]
@@ -776,6 +776,21 @@ Definition show_expect (x : expect) : sx :=
   | XAdv t => Lx [Ax "adv"; Ax t]
   end.
 
+Definition predicted (l : lit) (o : obs) : bool := existsb (fun p => pobs_match p o) (impl_preds l).
+
+Definition kf_try (l : lit) (o : obs) : option string :=
+  match kf_name l with
+  | Some id => if predicted l o then Some id else None
+  | None => None
+  end.
+
+(* once a signed suffix is read as a suffix at all (proposed patch C13-literal-syntax), `-128i8` behaves like `-128<i8>` *)
+Definition as_inline (l : lit) : lit :=
+  match l with
+  | LReal neg b (ASuffix k) => if signed_suffix (ASuffix k) then LReal neg b (AInline k) else l
+  | _ => l
+  end.
+
 Definition judge_lit (l : lit) (o : obs) : sx :=
   match expected l with
   | XAdv t => v_adv t
@@ -783,10 +798,13 @@ Definition judge_lit (l : lit) (o : obs) : sx :=
       match spec_tag x o with
       | Some t => v_ok t
       | None =>
-          match kf_name l with
-          | Some id => if existsb (fun p => pobs_match p o) (impl_preds l) then v_kf id
-                       else v_bad "not-the-denoted-value" (show_expect x)
-          | None => v_bad "not-the-denoted-value" (show_expect x)
+          match kf_try l o with
+          | Some id => v_kf id
+          | None =>
+              match kf_try (as_inline l) o with
+              | Some id => v_kf id
+              | None => v_bad "not-the-denoted-value" (show_expect x)
+              end
           end
       end
   end.
